@@ -15,6 +15,8 @@ NF_all   == {<<n, f>> : n \in 0..MaxChunks, f \in -1..(MaxChunks-1)}
 NF_read  == {<<2, -1>>, <<1, -1>>, <<2, 1>>}
 NF_count == {<<0, -1>>, <<1, -1>>, <<2, -1>>, <<2, 0>>, <<2, 1>>}
 NF_evict == {<<1, -1>>, <<2, -1>>, <<3, -1>>}
+NF_evict2 == {<<1, -1>>, <<2, -1>>}
+NF_one   == {<<1, -1>>}
 
 \* state constraint shared by the bounded configurations
 ClockBound == clock <= 8
